@@ -607,3 +607,50 @@ Corollary removal_depth_is_depth_of_what_remains fuel k p :
   exists o, run_visit false true [] fuel (remove_kind k p) = Ok o /\
             forall r, dof (o_state o) r = depth_after rsrc_eqb (evs_of (remove_kind k p)) r.
 Proof. intros H He Hf. apply transformed_program_depth; [now apply removal_keeps_wellformed|exact Hf]. Qed.
+
+(* ---------- any sequence of transformations ---------- *)
+Inductive tstep := TPopulate | TReverse | TRemoveIdle | TRemove (k : kind).
+Definition apply_tstep (t : tstep) (p : list stmt) : list stmt :=
+  match t with
+  | TPopulate => populate p
+  | TReverse => reverse_qubits p
+  | TRemoveIdle => remove_idle p
+  | TRemove k => remove_kind k p
+  end.
+(* no removal of the sequence empties an if-block (where it does, pyqasm itself rejects the program afterwards:
+   the known finding C03-empty-if-block) *)
+Fixpoint no_emptied_if (ts : list tstep) (p : list stmt) : bool :=
+  match ts with
+  | [] => true
+  | t :: ts' => negb (has_empty_if (apply_tstep t p)) && no_emptied_if ts' (apply_tstep t p)
+  end.
+Definition apply_tsteps (ts : list tstep) (p : list stmt) : list stmt := fold_left (fun q t => apply_tstep t q) ts p.
+
+Lemma tstep_keeps_wellformed t p : wf_flat env0 p = true -> has_empty_if (apply_tstep t p) = false -> wf_flat env0 (apply_tstep t p) = true.
+Proof.
+  intros H He. destruct t; cbn [apply_tstep] in *.
+  - now apply populate_keeps_wellformed.
+  - now apply reverse_keeps_wellformed.
+  - now apply remove_idle_keeps_wellformed.
+  - now apply removal_keeps_wellformed.
+Qed.
+
+Theorem any_sequence_keeps_wellformed ts : forall p,
+  wf_flat env0 p = true -> no_emptied_if ts p = true -> wf_flat env0 (apply_tsteps ts p) = true.
+Proof.
+  unfold apply_tsteps. induction ts as [|t ts IH]; intros p H Hn; [exact H|].
+  cbn [no_emptied_if] in Hn. apply andb_true_iff in Hn as [He Hn]. apply negb_true_iff in He.
+  cbn [fold_left]. apply IH; [now apply tstep_keeps_wellformed|exact Hn].
+Qed.
+
+Theorem any_sequence_result_is_valid_and_stable fuel ts p :
+  wf_flat env0 p = true -> no_emptied_if ts p = true -> (ldepth (apply_tsteps ts p) < fuel)%nat ->
+  (exists o, run_visit false true [] fuel (apply_tsteps ts p) = Ok o /\
+             num_qubits (o_state o) = total_qubits (apply_tsteps ts p) /\
+             forall r, dof (o_state o) r = depth_after rsrc_eqb (evs_of (apply_tsteps ts p)) r) /\
+  (exists o, run_visit false false [] fuel (apply_tsteps ts p) = Ok o /\ o_stmts o = apply_tsteps ts p).
+Proof.
+  intros H Hn Hf.
+  destruct (wf_flat_is_accepted_and_a_fixpoint fuel _ (any_sequence_keeps_wellformed ts p H Hn) Hf) as [(o1 & E1 & N1 & _ & D1) (o2 & E2 & Ho & _)].
+  split; [exists o1; repeat split; assumption|exists o2; split; assumption].
+Qed.
